@@ -11,6 +11,8 @@ P = {
          "Every return value of push/change_priority/_by/remove/pop*/get* is compared exactly with a BTreeMap model, and len/is_empty/iter/get/get_priority are observed for the whole universe after every step, on small universes that force re-insertion and absent targets.", "3 C03"),
  "C04": ("stateful fuzzing with sanitizing build (debug-assertion std precondition checks, journalled worker processes) + table-consistency invariant",
          "Histories over the whole alphabet incl. capacity ops, partial/leaked drains and leaked iter_mut guards, run in a build where out-of-bounds get_unchecked aborts with a diagnostic; any panic, abort or signal, and any inconsistency of heap/qp/size/map after a public operation is a violation. A second leg repeats in a release build (wrapping arithmetic).", "3 C04"),
+ "C05": ("property-based cost testing: a thread-local Ord::cmp counter around every public call, against fixed logarithmic / linear / zero bounds",
+         "Generated (size up to 2^16 quick / 2^20 thorough, six priority patterns, target class, new-priority class) measurements on evolving queues of both kinds: peeks/lookups must perform 0 comparisons (peek_max <= 1), single-element operations <= 16*(floor(log2 n)+1)+32, bulk rebuilds <= 8*(n+k)+64. The constants sit 2.7x-5x above the maxima observed on the unchanged tree and far below any linear (resp. n log n) cost at the sizes explored; deterministic, no timing.", "3 C05"),
  "C06": ("property-based testing of sorted consumption (call programs over next/next_back/len against the remaining-model extremes)",
          "States reached by histories are consumed through into_sorted_iter programs (both ends, past exhaustion, via rev) and the sorted-vec forms; each yielded element must be the extreme of what remains, each element exactly once, len() exact.", "3 C06"),
  "C07": ("property-based testing with a metamorphic size_hint relation (same pairs under 10 legal hint modes) + model of first/last-wins semantics",
@@ -37,7 +39,6 @@ P = {
          "Capacity ops are invisible to the reference model, so any influence on contents, extraction order or later results is a failure; capacity() lower bounds are asserted; unsatisfiable try_reserve must return Err without panic and leave the queue unchanged.", "3 C17"),
 }
 NOT_YET = {
- "C05": "check under construction in this round (comparison-count measurement); will be claimed when built",
  "C10": "check under construction in this round (fault-injection runner); will be claimed when built",
 }
 checks = []
